@@ -5,6 +5,7 @@ DevPinned == {"DpdCacheAliasing"}
 DevNoReset == {"NoReset"}
 DevResetAtEnd == {"ResetAtEnd"}
 DevSharedNameMap == {"SharedNameMap"}
+DevLazyNameMapOnLs == {"LazyNameMapOnLs"}
 DevCrossReactionCache == {"CrossReactionCache"}
 \* builders 1 and 2 work on the reaction as generated ("full"), builder 3 on the same decay with a restricted
 \* helicity set of the initial state ("sub")
